@@ -106,6 +106,12 @@ pub fn subst_pairs() -> Vec<(&'static str, Vec<&'static str>)> {
         ("Y", vec!["X", "Y1", "1", "Y1$i"]),
         ("X$i", vec!["Y$i", "X$i", "5", "Y$i + 1", "X$i + Y$i", "Y$i + Y1$i", "Y1$i * Y2$i", "-Y$i", "Y1$i"]),
         ("X$s", vec!["Y$s", "a", "X$s"]),
+        // the substituted variable is itself the first fresh-name candidate of a binder that has to be
+        // renamed (and need not occur in the formula at all)
+        ("Y1", vec!["Y", "X", "Y2", "Y$i + 1"]),
+        ("Y2", vec!["Y", "Y1"]),
+        ("Y1$i", vec!["Y$i", "Y$i + 1", "X$i + Y$i", "5"]),
+        ("Y1$s", vec!["Y$s", "a"]),
     ]
 }
 
@@ -198,7 +204,7 @@ pub fn run(run: &Run) {
     let fs = formulas(quick);
     let pairs = subst_pairs();
     run.set_extra("formulas_generated", json!(fs.len()));
-    run.set_rule("every (formula, variable, sort-compatible term) with formula from the binder-heavy families (single/double/triple binder blocks over X,Y,Y1,Y2 at three sorts, nested two levels, all five connectives + negation), variable in {X,Y,X$i,X$s}, term from the listed set (incl. two-variable terms whose second variable is the first fresh-name candidate) x all assignments over {1,2,a} x all classical interpretations of q/1, r/2; non-trivial = distinct non-constant truth table of the original formula");
+    run.set_rule("every (formula, variable, sort-compatible term) with formula from the binder-heavy families (single/double/triple binder blocks over X,Y,Y1,Y2 at three sorts, nested two levels, all five connectives + negation), variable in {X,Y,X$i,X$s} and in {Y1,Y2,Y1$i,Y1$s} (the fresh-name candidates of the binders), term from the listed set (incl. two-variable terms whose second variable is the first fresh-name candidate) x all assignments over {1,2,a} x all classical interpretations of q/1, r/2; non-trivial = distinct non-constant truth table of the original formula");
     run.assume("truth values are compared classically (substitution is connective-agnostic; every connective occurs in the formula set)");
     let idx: Vec<usize> = (0..fs.len()).collect();
     let seed = run.seed as usize;
